@@ -185,6 +185,10 @@ def check_case(ctx, model, table, store, second_pass=False):
             if verdict[3] not in snap["text"]:
                 ctx.violation("C04:field-name", case, "message does not name the offending field", expected=verdict[3], observed=snap)
                 return
+            if verdict[3] not in str(snap.get("message")):
+                # (the error's text and its documented message attribute: the same message)
+                ctx.violation("C04:field-name:message-attribute", case, "the error's message attribute does not name the offending field", expected=verdict[3], observed=snap)
+                return
             if "R%dC%d" % (rowno, verdict[2] + 1) not in snap["text"]:
                 ctx.violation("C04:location-text", case, "error text does not show row and column", expected="R%dC%d" % (rowno, verdict[2] + 1), observed=snap)
                 return
